@@ -48,7 +48,13 @@ class Contract:
             self.params.append((p.arg, parse_type(p.annotation)))
         self.ret = parse_type(node.returns) if node.returns is not None else None
         self.clauses = []       # (kind, Call node)
+        self.body = []          # scenarios only: the statements that are executed
+        CL = ('requires', 'ensures', 'modifies', 'raises', 'propagates', 'decreases', 'partial', 'hint', 'hint_exit', 'emits')
         for st in node.body:
+            if file == '<scenario>' and not (isinstance(st, ast.Expr) and isinstance(st.value, ast.Call) and isinstance(st.value.func, ast.Name)
+                                             and st.value.func.id in CL) and not (isinstance(st, ast.Expr) and isinstance(st.value, ast.Constant)):
+                self.body.append(st)
+                continue
             if isinstance(st, ast.Expr) and isinstance(st.value, ast.Call) and isinstance(st.value.func, ast.Name):
                 self.clauses.append((st.value.func.id, st.value))
             elif isinstance(st, ast.Expr) and isinstance(st.value, ast.Constant):
@@ -171,6 +177,12 @@ class Sidecar:
                             kwc[k] = v
                     if name == 'contract':
                         c = Contract(self._const(args[0]), self._const(args[1]), st, self, kwc)
+                        R.contracts[c.key] = c
+                        handled = True
+                    elif name == 'scenario':
+                        # a sequence of calls to functions under contract, executed symbolically against those contracts:
+                        # "a lemma over the contracts" whose statement is the ensures clauses
+                        c = Contract('<scenario>', st.name, st, self, kwc)
                         R.contracts[c.key] = c
                         handled = True
                     elif name == 'loop':
